@@ -8,6 +8,8 @@ SCHEMES = {
     "ABC": ["A", "B", "C"],
     "0DV": ["0", "0DV", "1"],
     "1011": ["10", "11", "2"],
+    # '12' written as a string means ports 1 and 2, ['12'] means the port named 12
+    "112": ["1", "2", "12"],
 }
 
 
@@ -38,8 +40,10 @@ def c01_forms(ports, with_strings):
     forms["z0"] = [[1, [a]]]  # throughput 0.0 -> shown, not summed
     forms["n0"] = []  # no micro-ops at all
     if with_strings:
-        forms["q0"] = [[1, a + b]]
-        forms["q1"] = [[2, a + b + c], [1, a]]
+        # string notation is only defined for one-character port names
+        single = "".join(x for x in (a, b, c) if len(x) == 1)
+        forms["q0"] = [[1, single[:2]]]
+        forms["q1"] = [[2, single], [1, single[0]]]
     return forms
 
 
